@@ -104,6 +104,8 @@ def check_exit(self, o):
     pre_env = State(dict(entry.env), st.heap, st.pc, st.next_ref, st.ghost, st.labels)
     if o.kind == "raise":
         exc = o.exc
+        if any(e == exc for e, _ in c.raises) or exc in c.may_raise:
+            self.covers.append((f"{c.qual}/exit.cover", list(st.pc)))
         matched = False
         for e, cond in c.raises:
             if e == exc:
@@ -538,9 +540,9 @@ def st_Assert(self, s, st):
 def st_If(self, s, st):
     for c, s1 in self.ev(s.test, st):
         tv = simp(self.truth(c, s1))
-        if z3.is_true(tv):
+        if z3.is_true(tv) or (not z3.is_false(tv) and self.entails(s1, tv)):
             yield from self.ex_block(s.body, s1)
-        elif z3.is_false(tv):
+        elif z3.is_false(tv) or self.entails(s1, z3.Not(tv)):
             yield from self.ex_block(s.orelse, s1)
         else:
             s_t, s_f = s1, s1.copy()
